@@ -15,6 +15,7 @@ use vaporetto::{CharacterBoundary as CB, Model, Predictor, Sentence, SolverType,
 
 use crate::util::{catch, hex, hexs, unhexs};
 
+#[derive(Clone)]
 pub struct TrCase {
     pub cw: u8,
     pub cn: u8,
@@ -415,4 +416,127 @@ pub fn silence_stdout<T>(f: impl FnOnce() -> T) -> T {
         libc::close(saved2);
         r
     }
+}
+
+/// extra step (C11 at the tool level): the real `train` binary on generated corpora written to files. The learner is not
+/// reproducible run to run, so the comparison with the library is structural: success/failure agree, a failure is an error
+/// message and not a panic, the written model passes the C11 oracle (re-read, accepted by both predictors, predicts and
+/// tags without panicking, weights within 16 bits), carries the requested window sizes, and lists only dictionary words
+/// that the dictionary files contain (after normalisation unless --no-norm).
+pub fn cli_train(thorough: bool, seed: u64) {
+    use vaporetto_rules::{string_filters::KyteaFullwidthFilter, StringFilter};
+    let mut buf: Vec<u8> = vec![];
+    crate::gen_train::gen(&mut buf, "C11", thorough, seed ^ 0xC11C);
+    let lines: Vec<String> = String::from_utf8_lossy(&buf).lines().map(|l| l.to_string()).collect();
+    let dir = crate::cli::scratch_dir("c11");
+    let s = |p: &std::path::Path| p.display().to_string();
+    let (mut n, mut fails, mut n_ok) = (0, 0, 0);
+    for (i, line) in lines.iter().enumerate() {
+        let toks: Vec<&str> = line.split(' ').collect();
+        let Some(c) = TrCase::parse(&toks) else { continue };
+        n += 1;
+        let no_norm = i % 2 == 0;
+        let (tp, pp, dp, mp) = (dir.join("c.tok"), dir.join("c.part"), dir.join("d.txt"), dir.join("m.zst"));
+        let tok: Vec<&str> = c.corpus.iter().filter(|x| x.0 == 't').map(|x| x.1.as_str()).collect();
+        let part: Vec<&str> = c.corpus.iter().filter(|x| x.0 != 't').map(|x| x.1.as_str()).collect();
+        std::fs::write(&tp, tok.iter().map(|l| format!("{l}\n")).collect::<String>()).unwrap();
+        std::fs::write(&pp, part.iter().map(|l| format!("{l}\n")).collect::<String>()).unwrap();
+        let esc = |w: &str| -> String { w.chars().map(|c| if c == ' ' || c == '/' || c == '\\' { format!("\\{c}") } else { c.to_string() }).collect() };
+        let dict_lines: Vec<String> = c.dict.iter().map(|w| esc(w)).chain(c.tagdict.iter().cloned()).collect();
+        std::fs::write(&dp, dict_lines.iter().map(|l| format!("{l}\n")).collect::<String>()).unwrap();
+        let _ = std::fs::remove_file(&mp);
+        let mut args: Vec<String> = vec!["--model".into(), s(&mp), "--solver".into(), c.solver.to_string()];
+        // at least one data set option is required by the tool; an empty file stands for an empty corpus
+        args.extend(["--tok".into(), s(&tp)]);
+        if !part.is_empty() {
+            args.extend(["--part".into(), s(&pp)]);
+        }
+        if !dict_lines.is_empty() {
+            args.extend(["--dict".into(), s(&dp)]);
+        }
+        for (k, v) in [("--charw", c.cw), ("--charn", c.cn), ("--typew", c.tw), ("--typen", c.tn), ("--dictn", c.ml)] {
+            args.extend([k.to_string(), v.to_string()]);
+        }
+        if no_norm {
+            args.push("--no-norm".into());
+        }
+        let o = crate::cli::run_tool("train", &args, b"");
+        // the library on the same data: dictionary = sorted set of all surfaces in the dictionary file
+        let norm = |t: &str| if no_norm { t.to_string() } else { KyteaFullwidthFilter.filter(t) };
+        let mut words: std::collections::BTreeSet<String> = Default::default();
+        for l in &dict_lines {
+            if let Ok(sent) = Sentence::from_tokenized(l) {
+                let raw = norm(sent.as_raw_text());
+                if let Ok(mut ns) = Sentence::from_raw(raw) {
+                    ns.boundaries_mut().clone_from_slice(sent.boundaries());
+                    for t in ns.iter_tokens() {
+                        words.insert(t.surface().to_string());
+                    }
+                }
+            }
+        }
+        let mut c2 = c.clone();
+        c2.dict = words.iter().cloned().collect();
+        c2.tagdict = dict_lines.clone();
+        if !no_norm {
+            // normalise the surfaces of every line the way the tool does (tags are kept)
+            let renorm = |l: &str, tokd: bool| -> Option<String> {
+                let sent = if tokd { Sentence::from_tokenized(l).ok()? } else { Sentence::from_partial_annotation(l).ok()? };
+                let mut ns = Sentence::from_raw(KyteaFullwidthFilter.filter(sent.as_raw_text())).ok()?;
+                ns.boundaries_mut().clone_from_slice(sent.boundaries());
+                ns.reset_tags(sent.n_tags());
+                ns.tags_mut().clone_from_slice(sent.tags());
+                let mut b = String::new();
+                ns.write_partial_annotation_text(&mut b);
+                Some(b)
+            };
+            c2.corpus = c.corpus.iter().filter_map(|(k, l)| renorm(l, *k == 't').map(|x| ('p', x))).collect();
+            c2.tagdict = dict_lines.iter().filter_map(|l| Sentence::from_tokenized(l).ok().map(|sent| {
+                let mut ns = Sentence::from_raw(KyteaFullwidthFilter.filter(sent.as_raw_text())).unwrap();
+                ns.boundaries_mut().clone_from_slice(sent.boundaries());
+                ns.reset_tags(sent.n_tags());
+                ns.tags_mut().clone_from_slice(sent.tags());
+                let mut b = String::new();
+                ns.write_tokenized_text(&mut b);
+                b
+            })).collect();
+        }
+        let lib = train_case(&c2);
+        let mut problems: Vec<String> = vec![];
+        if o.stderr.contains("panicked") {
+            problems.push(format!("the tool panicked: {}", o.stderr.lines().find(|l| l.contains("panicked")).unwrap_or("")));
+        }
+        let lib_ok = lib.outcome == "ok";
+        if (o.code == Some(0)) != lib_ok && !lib.outcome.starts_with("panic") {
+            problems.push(format!("tool exit {:?} but the library outcome on the same data is {}", o.code, lib.outcome));
+        }
+        if o.code == Some(0) {
+            n_ok += 1;
+            match crate::cli::read_zst(&mp) {
+                None => problems.push("exit 0 but no readable model file".into()),
+                Some(bytes) => {
+                    let mut f2 = vec![];
+                    oracle_c11(&c2, &bytes, &mut f2);
+                    problems.extend(f2.into_iter().map(|x| x.1));
+                    match crate::model::AbsModel::from_bytes(&bytes) {
+                        None => problems.push("the written model does not decode".into()),
+                        Some(m) => {
+                            if m.char_w != c.cw || m.type_w != c.tw {
+                                problems.push(format!("window sizes {}/{} in the model, {}/{} requested", m.char_w, m.type_w, c.cw, c.tw));
+                            }
+                            if let Some(d) = m.dict.iter().find(|d| !words.contains(&d.0)) {
+                                problems.push(format!("dictionary word {:?} is not in the dictionary files", d.0));
+                            }
+                        }
+                    }
+                }
+            }
+        }
+        if !problems.is_empty() {
+            fails += 1;
+            println!("FAIL case={i} no_norm={no_norm} {} :: {}", problems.join(" ; ").chars().take(600).collect::<String>(), line.chars().take(900).collect::<String>());
+        }
+    }
+    let _ = std::fs::remove_dir_all(&dir);
+    println!("cli_train runs={n} models_written={n_ok} failures={fails}");
 }
